@@ -166,22 +166,32 @@ def drive(spec, hist=None, rng=None, concrete=None, record=True):
         if op[0] == "remove_unfinished":
             outstanding.clear()
         # extra_data against the from-scratch expectation
-        keys = [W.hashable(kind, k) for k in ds.extra_data.keys()]
+        extra_ok = False
+        try:
+            keys = [W.hashable(kind, k) for k in ds.extra_data.keys()]
+        except Exception:
+            keys = list(ds.extra_data.keys())
         if keys != key_order:
             errors.append(("C18:extra_data_keys", f"extra_data keys {keys[:6]} != told points {key_order[:6]}"))
         elif any(ds.extra_data[k] != expected_extra[W.hashable(kind, k)] for k in ds.extra_data):
             errors.append(("C18:extra_data_values", "extra_data value is not the last full result told for the point"))
-        o = None
-        if out[0] != "exc":
+        else:
+            extra_ok = True
+        o = st = None
+        if out[0] == "exc":
+            stop = "exception:" + out[1]
+        elif not extra_ok:
+            stop = "extra_data-wrong"          # reported above; the model comparison needs well-formed extra_data
+        else:
             if rec is not None and full:
                 rec.mark_full()
             st = public_state(kind, ds)
             o = {"extra": [(W.enc_point(kind, k), float(make_picker(pname)(v)), tag_of(pname, v)) for k, v in ds.extra_data.items()],
                  "npoints": st["npoints"], "pend": st["pend"], "data": st["data"] if full else None,
                  "loss_r": st["loss_r"], "loss_e": st["loss_e"]}
-        else:
-            stop = "exception:" + out[1]
-        steps.append((op, out, o, public_state(kind, ds) if out[0] != "exc" else None))
+        if stop == "extra_data-wrong":
+            return
+        steps.append((op, out, o, st))
 
     if concrete is not None:
         for op in concrete:
@@ -387,7 +397,7 @@ def nontrivial(steps):
 
 def run(chk: Check) -> int:
     chk.prove(["theories/Props/C18.vo", "theories/Run/DataSaverRun.vo"], THEOREMS)
-    ncases = 300 if chk.quick else 2400
+    ncases = 600 if chk.quick else 4000
     maxlen = 26 if chk.quick else 60
     cases, metas = [], []
     hist_ops, kinds, stops, sizes = {}, {}, {}, {}
